@@ -30,7 +30,7 @@ PROP = {
                 "GbVerif.Proofs.BusFrame", "GbVerif.Proofs.BusIo", "GbVerif.Proofs.BusRefine", "GbVerif.Props.C12",
                 "GbVerif.Proofs.NatBits"],
     "exhaustive": False,
-    "rule": "one history in eight switches the display on, lets 4608..5560 clocks pass (out of VBlank, into any mode of a drawn line) and writes LCDC with bit 7 clear; one case = cartridge configuration (14: ROM only / MBC1 / MBC3, 2..512 and 72/80/96 banks, RAM 0/2K/8K/32K/64K/128K) x "
+    "rule": "one case in three sets the header bytes the memory map must NOT depend on (Color flag 0x80/0xC0, SGB flag, licensee, destination, version; field hx=), half of them start with an odd write to the Color-only VRAM bank register 0xFF4F followed by VRAM writes; one history in eight switches the display on, lets 4608..5560 clocks pass (out of VBlank, into any mode of a drawn line) and writes LCDC with bit 7 clear; one case = cartridge configuration (14: ROM only / MBC1 / MBC3, 2..512 and 72/80/96 banks, RAM 0/2K/8K/32K/64K/128K) x "
             "write history of 1..12 writes (addresses: region boundaries 30%, bank registers, each RAM region, OAM/unused/I/O/HRAM, "
             "uniform; values: boundary bytes 25%, uniform), quick 40 and thorough 1500 histories per configuration; after the "
             "history all 65 536 addresses are read (exhaustive in the address), 12 region digests + 128 I/O bytes + fetch digests. "
